@@ -731,3 +731,48 @@ def response_oracle(c, tr):
     if c.get('foreign_payload') and valid and res is not None and res != c['plain']:
         return 'misinterpreted', f'payload not in coding {c["ce"]} was accepted'
     return None
+
+
+def replay(ctx, rep):
+    """./check C17 --replay <file>: re-run the recorded case on the implementation and on the model"""
+    import json
+    stream, case = rep.get('stream'), rep.get('case') or {}
+    lh = lambda s: None if s is None else s.encode('latin-1').hex()  # noqa: E731
+    out = {'stream': stream, 'what': rep.get('what')}
+    if stream == 'mk_chunks':
+        body = bytes.fromhex(case['body_hex'])
+        out['impl'] = ctx.impl('c17_impl', {'mk_chunks': [{'n': case['n'], 'body': body.hex()}]})['mk_chunks'][0]
+        out['model'] = ctx.coq_eval(HEADER, f'run_mk_chunks ({case["n"]}, {B(body)})')
+    elif stream in ('reader', 'response'):
+        data = bytes.fromhex(case['data'])
+        req = {'te': case['te'], 'cl': case['cl'], 'ce': case['ce'], 'data': data.hex(), 'caps': case['caps']}
+        out['impl'] = ctx.impl('c17_impl', {stream: [req]})[stream][0]
+        ch, code, v = case['model_hdr']
+        ce = case['ce'] if case['ce'] else None
+        inp = f'(({"true" if ch else "false"}, {code}, {v}), {OB(lat(ce))}, {B(data)}, {NL(case["caps"])})'
+        runner = 'run_request hdr_max available_encodings' if stream == 'reader' else 'run_response available_encodings'
+        out['model (tag, (bytes handed on, bytes left))'] = ctx.coq_eval(HEADER, f'{runner} {inp}')
+    elif stream == 'parse_header':
+        out['impl'] = ctx.impl('c17_impl', {'parse_header': [{'header': lh(case['header'])}]})['parse_header'][0]
+        out['model'] = ctx.coq_eval(HEADER, f'run_parse_header {OB(lat(case["header"]))}')
+    elif stream == 'server_choice':
+        h, en = case['accept_encoding'], case['enabled']
+        out['impl'] = ctx.impl('c17_impl', {'server_choice': [{'header': lh(h), 'enabled': [lh(e) for e in en]}]})['server_choice'][0]
+        out['model'] = ctx.coq_eval(HEADER, f'run_server_choice ({OB(lat(h))}, {BL([lat(e) for e in en])})')
+    elif stream == 'client_choice':
+        out['impl'] = ctx.impl('c17_impl', {'client_choice': [{'request_encodings': [lh(x) for x in case['request_encodings']],
+                                                                'supported': [lh(x) for x in case['supported']], 'chunk': case.get('chunk', 0)}]})['client_choice'][0]
+        out['model'] = ctx.coq_eval(HEADER, f'run_client_choice ({BL([lat(x) for x in case["request_encodings"]])}, {BL([lat(x) for x in case["supported"]])})')
+    elif stream in ('e2e', 'raw', 'codec'):
+        if stream == 'raw' and 'raw' not in case:
+            hdr = case.get('header')
+            body = bytes.fromhex(case['body'])
+            raw = b'POST /dev/svc HTTP/1.1\r\nHost: h\r\n' + (b'' if hdr is None else b'Accept-Encoding: ' + hdr.encode('latin-1') + b'\r\n')
+            case = dict(case, raw=(raw + b'Content-Length: %d\r\n\r\n' % len(body) + body).hex())
+        out['impl'] = ctx.impl('c17_impl', {stream: [case]})[stream][0]
+        out['model'] = '(oracle-only stream)'
+    else:
+        out['note'] = 'no single case recorded (proof or correspondence break without failing input)'
+        out['broken'] = rep.get('broken')
+    print(json.dumps(out, indent=1, default=str)[:20000])
+    return 0
